@@ -169,11 +169,21 @@ def schedule_set(tier, rng, witness):
     return out
 
 
-def histories(maxlen):
-    out = []
+def history_groups(maxlen):
+    """(all histories up to maxlen, their grouping into fresh interpreters): a history of length <= 2 gets an interpreter of
+    its own; the five histories that extend the same prefix of length >= 2 share one (the first of them starts fresh, the others
+    continue it — a concatenation of histories is again a history)."""
+    hs, groups = [], []
     for k in range(1, maxlen + 1):
-        out += [list(h) for h in itertools.product(CFGS, repeat=k)]
-    return out
+        for h in itertools.product(CFGS, repeat=k):
+            hs.append(list(h))
+    for k in (1, 2):
+        if k <= maxlen:
+            groups += [[list(h)] for h in itertools.product(CFGS, repeat=k)]
+    for k in range(3, maxlen + 1):
+        for pre in itertools.product(CFGS, repeat=k - 1):
+            groups.append([list(pre) + [x] for x in CFGS])
+    return hs, groups
 
 
 # ------------------------------------------------------------------------------------------------ the check
@@ -268,35 +278,44 @@ def run(chk):
         if info and os.path.exists(gen_v[:-2] + ".vo"):
             preds = model_predict([(n, list(ms) + drain(n)) for n, ms in scheds])
 
-    # ---- reference behaviour + history stream (fresh interpreter per history)
-    hs = histories(3 if chk.tier == "quick" else 4)
-    hres = real_many("history", [{"histories": [h], "recheck": 10} for h in hs], workers=14)
-    long_run = real("history", {"histories": [rng.choices(CFGS, k=3) for _ in range(12)], "hundred": True, "recheck": 60})
+    # ---- the three real-code streams are submitted together (fresh interpreter per item)
+    maxlen = 3 if chk.tier == "quick" else 4
+    hs, hgroups = history_groups(maxlen)
+    specs = [sched_spec(n, ms, fia) for n, ms in scheds]
+    reps = 20
+    with cf.ThreadPoolExecutor(14) as ex:
+        f_h = [ex.submit(real, "history", {"histories": g, "recheck": 12}) for g in hgroups]
+        f_long = ex.submit(real, "history", {"histories": [rng.choices(CFGS, k=3) for _ in range(12)], "hundred": True, "recheck": 60})
+        f_s = [ex.submit(real, "sched", sp) for sp in specs]
+        f_st = [ex.submit(real, "stress", {"threads": 16, "battery": True, "battery_threads": 4}) for _ in range(reps)]
+        hres = [f.result() for f in f_h]
+        long_run = f_long.result()
+        sres = [f.result() for f in f_s]
+        st = [f.result() for f in f_st]
+    hs_groups = hgroups
     ref = None
     hist_bad = None
-    for h, r in list(zip(hs, hres)) + [(["<12 random histories in one interpreter + 100th converter>"], long_run)]:
+    for h in hs:
         chk.count(("hist", tuple(h)))
+    for g, r in list(zip(hgroups, hres)) + [([["<12 random histories in one interpreter + 100th converter>"]], long_run)]:
+        h = g
         if "runner_error" in r:
-            hist_bad = hist_bad or {"history": h, "observed_impl": r["runner_error"][-600:], "expected": "converters are created without error"}
+            hist_bad = hist_bad or {"histories": h, "observed_impl": r["runner_error"][-600:], "expected": "converters are created without error"}
             continue
         digs = [d for row in r["histories"] for d in row] + r["later"] + ([r["hundred"]] if r.get("hundred") else [])
         if ref is None and digs and not digs[0].startswith("create-raise"):
             ref = digs[0]
         wrong = [d for d in digs if d != ref]
         if wrong and not hist_bad:
-            hist_bad = {"history": h, "observed_impl": {"per_converter": r["histories"], "earlier_converters_rechecked": r["later"], "hundredth": r.get("hundred")},
+            hist_bad = {"histories": h, "observed_impl": {"per_converter": r["histories"], "earlier_converters_rechecked": r["later"], "hundredth": r.get("hundred")},
                         "expected": "every converter gives the reference results " + str(ref)}
-        if r.get("distinct_identities") != r.get("n_convs") and not hist_bad and "fresh" in h and h.count("fresh") > 1:
-            pass
     n_conv = sum(r.get("n_convs", 0) for r in hres if "runner_error" not in r) + long_run.get("n_convs", 0)
     chk.obligation("history-stream:real-converters-agree", hist_bad is None,
-                   "%d histories (fresh interpreter each) + 1 long run, %d converters, battery %s inputs, reference digest %s"
-                   % (len(hs), n_conv, long_run.get("n_battery"), ref))
-    chk.sample({"history": hs[min(len(hs) - 1, 37)], "digests": hres[min(len(hs) - 1, 37)].get("histories")})
+                   "%d histories in %d fresh interpreters + 1 long run, %d converters, battery %s inputs, reference digest %s"
+                   % (len(hs), len(hgroups), n_conv, long_run.get("n_battery"), ref))
+    chk.sample({"histories_in_one_interpreter": hgroups[-1], "digests": hres[-1].get("histories")})
 
     # ---- schedule stream on the real code
-    specs = [sched_spec(n, ms, fia) for n, ms in scheds]
-    sres = real_many("sched", specs, workers=12)
     disagreements, real_fail, predicted_fail = [], [], 0
     for i, ((n, ms), spec, r) in enumerate(zip(scheds, specs, sres)):
         chk.count(("sched", n, ms))
@@ -328,8 +347,6 @@ def run(chk):
     chk.extra["schedule_disagreements"] = len(disagreements)
 
     # ---- stress (supports the search; proves nothing)
-    reps = 20
-    st = real_many("stress", [{"threads": 16, "battery": True}] * reps, workers=4)
     stress_fail = []
     for r in st:
         chk.count(("stress", len(stress_fail), id(r)), nontrivial=False)
@@ -393,7 +410,7 @@ def run(chk):
             explained = True
 
     if hist_bad:
-        chk.violation({"property": "C19", "kind": "history", "input": {"mode": "history", "spec": {"histories": [hist_bad["history"]], "recheck": 10}},
+        chk.violation({"property": "C19", "kind": "history", "input": {"mode": "history", "spec": {"histories": hist_bad["histories"], "recheck": 12}},
                        "expected": hist_bad["expected"], "observed_impl": hist_bad["observed_impl"], "reference": ref,
                        "broken": [b[:2] for b in broken], "how_to_replay": how})
     if real_fail and not explained:
